@@ -2,10 +2,10 @@
 # usage: confirm_seed.sh <worktree> <seed dir containing patch.diff demo.py meta.json>
 # Confirms independently: demo passes on the clean tree, fails with the change; full suite still passes with the change.
 wt="$1"; d="$2"
-git -C "$wt" checkout -q -- .
+git -C "$wt" reset -q --hard
 PYTHONPATH="$wt" /venv/bin/python "$d/demo.py" >/dev/null 2>&1; clean=$?
-git -C "$wt" apply "$d/patch.diff" || { echo "{\"applies\": false}" > "$d/confirm.json"; exit 3; }
+git -C "$wt" apply "$d/patch.diff" 2>/dev/null || git -C "$wt" apply --3way "$d/patch.diff" || { echo "{\"applies\": false}" > "$d/confirm.json"; exit 3; }
 PYTHONPATH="$wt" /venv/bin/python "$d/demo.py" >/dev/null 2>&1; mut=$?
 summary=$(cd "$wt" && PYTHONPATH="$wt" /venv/bin/python -m pytest -q -p no:cacheprovider --benchmark-disable 2>&1 | grep -E "passed|failed|error" | tail -1)
-git -C "$wt" checkout -q -- .
+git -C "$wt" reset -q --hard
 echo "{\"applies\": true, \"demo_exit_clean\": $clean, \"demo_exit_changed\": $mut, \"suite_with_change\": \"$summary\"}" | tee "$d/confirm.json"
